@@ -2011,7 +2011,7 @@ var intConsts = map[string]*ssa.Const{}
 
 // intConst makes a constant of type t (integers and booleans) so that a cell can remember an evaluated value.
 func intConst(k int64, t types.Type) ssa.Value {
-	key := t.String() + "#" + strconv.FormatInt(k, 10)
+	key := TStr(t) + "#" + strconv.FormatInt(k, 10)
 	if c, ok := intConsts[key]; ok {
 		return c
 	}
